@@ -158,7 +158,7 @@ _proof("C20", ["EdVerif.Props.C20"], "Proved each run on the regenerated instruc
        "give exactly the limbs of feMulGeneric/feSquareGeneric/carryPropagateGeneric for ALL limb values and every aliasing pattern; build-constraint facts: exactly one definition of each "
        "configuration-dependent symbol is selected and those are the only ones. Plus same-process asm-vs-portable comparison and default-vs-purego transcript comparison.",
        "Lean 4 symbolic execution of regenerated assembly against regenerated Go kernels + cross-build correspondence")
-PROPS["C20"]["parts"] = ["c20_crossbuild"]
+PROPS["C20"]["parts"] = ["c20_crossbuild", "c18_race"]
 PROPS["C20"]["needs_gen"] = ["kernels", "asm", "facts"]
 PROPS["C20"]["trusted_extra"] = ["opcode semantics of the 9 amd64 / 8 arm64 opcodes used (EdVerif/Asm/Sem.lean) and the assembly tokenizer tools/go2lean/asm.go; "
                                  "the arm64 routine cannot be executed in this sandbox (model + theorem only)"]
